@@ -123,7 +123,12 @@ class Gen:
                     b = int(r.integers(a + 1, max(a + 2, 3 * n // 4)))
                     shift = r.normal(scale=4.0, size=p)
                     vals[a:b] = vals[a:b] + (np.round(shift * 3).astype("int64") if dtype == "int64" else np.round(shift, 3))
-                prev_vals = vals
+                if prev_vals is not None and t >= 1 and r.random() < 0.25:
+                    # a grown series: the sibling's rows followed by a few new ones
+                    extra = self.values(int(r.integers(2, 9)), p, dtype)
+                    vals = np.concatenate((prev_vals, extra))
+                else:
+                    prev_vals = vals
                 out.append(
                     {
                         "id": did,
@@ -511,14 +516,14 @@ class Gen:
             return {"op": "mutate", "d": d, "values": values_to_json(self.values(len(spec["values"]), len(spec["columns"]), spec.get("dtype", "float64")))}
         if cl.is_det:
             if fitted:
-                ops = [("predict", 25), ("transform", 14), ("transform_scores", 14), ("fit", 14), ("update", 9), ("update_predict", 2), ("fit_predict", 3), ("fit_transform", 2), ("set_params", 8), ("clone", 3), ("reset", 2), ("construct", 1)]
+                ops = [("predict", 25), ("transform", 14), ("transform_scores", 14), ("fit", 14), ("update", 9), ("update_predict", 2), ("fit_predict", 3), ("fit_transform", 2), ("set_params", 8), ("clone", 3), ("reset", 2), ("construct", 1), ("copy", 3)]
             elif cl.lin == UNSPEC:
                 ops = [("fit", 55), ("predict", 12), ("transform_scores", 5), ("update", 4), ("set_params", 8), ("clone", 3), ("reset", 4), ("fit_predict", 5)]
             else:
                 ops = [("fit", 64), ("predict", 5), ("update", 2), ("set_params", 12), ("clone", 3), ("fit_predict", 6), ("fit_transform", 3), ("construct", 1), ("reset", 1)]
         else:
             if fitted and not cl.amb and not cl.stale:
-                ops = [("evaluate", 62), ("fit", 18), ("set_params", 8), ("clone", 2), ("reset", 2)]
+                ops = [("evaluate", 62), ("fit", 18), ("set_params", 8), ("clone", 2), ("reset", 2), ("copy", 3)]
             else:
                 ops = [("fit", 62), ("evaluate", 14), ("set_params", 12), ("clone", 3), ("reset", 2)]
         names = [o for o, _ in ops]
@@ -531,6 +536,9 @@ class Gen:
                 op = "fit"
         if op in ("clone", "reset"):
             st = {"op": op, "c": i}
+        elif op == "copy":
+            st = {"op": "copy", "c": i, "how": self.choice(["deepcopy", "pickle"])}
+            self.follow = (i, self.choice(["update", "predict", "transform_scores"])) if cl.is_det else None
         elif op == "construct":
             existing = [c.name for c in sim.clients if c.is_det]
             pool = []
